@@ -105,7 +105,7 @@ func genMOpts(t *rapid.T) c06.Opts {
 // GenValue draws a value case.
 func GenValue(t *rapid.T) VCase {
 	c := VCase{Lean: rapid.IntRange(0, 3).Draw(t, "lean") == 0, Opts: genMOpts(t)}
-	c.Top = rapid.SampledFrom([]string{"", "", "", "", "", "", "ptr", "ptr", "recs", "recs", "map", "map", "bytes", "time", "text", "int", "float", "str"}).Draw(t, "top")
+	c.Top = rapid.SampledFrom([]string{"", "", "", "", "", "", "ptr", "ptr", "recs", "recs", "map", "map", "bytes", "time", "text", "int", "float", "str", "hook", "hookptr"}).Draw(t, "top")
 	budget := rapid.SampledFrom([]int{200, 1000, 6000, 6000, 16000}).Draw(t, "budget")
 	if leafTop(c.Top) {
 		c.Val = RecD{Pad: rapid.IntRange(0, 5000).Draw(t, "leafsize")}
